@@ -56,6 +56,8 @@ func structDepth(err error) int {
 }
 
 type histResult struct {
+	err     error  // the error value itself (kept alive to see whether it changes after it was returned)
+	errDump string // its rendering at return time
 	coq     string
 	text    string // complete textual outcome (string / value dump / error type and text)
 	marshal string
@@ -85,6 +87,9 @@ func runHistOp(op histOp, types []reflect.Type) histResult {
 		s, err, pan := marshalObs(arg)
 		res := histResult{marshal: s, okM: err == nil && pan == nil}
 		res.text = fmt.Sprintf("%q|%T|%v|%v", s, err, err, pan)
+		if err != nil {
+			res.err, res.errDump = err, fmt.Sprintf("%#v", err)
+		}
 		sdv := "None"
 		if err != nil {
 			sdv = sd(err)
@@ -120,6 +125,9 @@ func runHistOp(op histOp, types []reflect.Type) histResult {
 		dump = stableDump(val)
 	}
 	res.text = fmt.Sprintf("%s|%T|%v|%v", dump, err, err, pan)
+	if err != nil {
+		res.err, res.errDump = err, fmt.Sprintf("%#v", err)
+	}
 	sdv := "None"
 	if err != nil {
 		sdv = sd(err)
@@ -177,6 +185,16 @@ func corrC18(outDir string, seed uint64, tier string, replay string) *report {
 				break
 			}
 			rep.bump("reverse_order_compared")
+		}
+		// an error value, once returned, is the caller's: it still reads the same after all the later calls of the history
+		for i, w := range warm {
+			if w.err != nil {
+				if now := fmt.Sprintf("%#v", w.err); now != w.errDump {
+					rep.fail(map[string]interface{}{"history": hI, "op": i, "type": types[ops[i].ty].String(), "marshal": ops[i].marshal, "hash": ops[i].h},
+						w.errDump+" (the error as it was returned)", now+" (the same error value after the later calls of the history)", "an error value changes after it was returned (later calls write into it)")
+					break
+				}
+			}
 		}
 		// soak: twenty thousand failing calls (bad prefix value, bad field value, malformed string), then a sample of the
 		// history again: state that leaks a little on every failing call has accumulated by now
